@@ -241,7 +241,7 @@ struct WL {
             gsim::prog_reset(n);
             for (int t = 0; t < n; t++) {
                 int role = gsim::gen_int(3);  // 0 submitter 1 reader 2 mixed
-                int k = 1 + gsim::gen_int(4);
+                int k = 1 + gsim::gen_int(4 + (gsim::thorough() ? 2 : 0));
                 for (int i = 0; i < k; i++) {
                     bool submit = role == 0 || (role == 2 && gsim::gen_int(2));
                     if (submit) {
